@@ -306,7 +306,43 @@ class Joiner(Contract):
         yield Case("arity=2", make_env, check)
 
     def apply(self, ex, args, kw, node):
-        raise U(f"{self.func} as a callee", node)
+        """concatenate(list of x_d[numpy.newaxis], axis=0) for a list of symbolic length: stacking.  Element (d, i) of the
+        result is element i of x_d (numpy: concatenation along the new first axis; value level through B6)."""
+        from engine.polymodel import prepend, at0, first0, rest0, index_newaxis
+        from engine.logic import PV, inshape
+        arrays = args[0] if args else kw.get("arrays")
+        axis = kw.get("axis", args[1] if len(args) > 1 else 0)
+        if self.func != "concatenate" or not isinstance(arrays, V.Seq) or axis != 0 or kw.get("out") is not None:
+            raise U(f"{self.func} as a callee in this form", node)
+        ctx = ex.ctx
+        site = ex.site("concatenate")
+        ex.oblige(f"pre({site}).at_least_one_array", arrays.n >= 1, "precondition", node)
+        dq = ctx.int("piece")
+        ctx.assume(z3.And(0 <= dq, dq < arrays.n))
+        piece = arrays.item(dq)
+        io = getattr(piece, "item_of", None)
+        if not isinstance(piece, Poly) or io is None or not z3.eq(io[1].term, index_newaxis):
+            raise U("concatenate of a symbolic list whose items are not x[numpy.newaxis]", node)
+        s0 = io[0].shape
+        if dq.sexpr() in s0.sexpr():
+            raise U("pieces of different shapes", node)
+        r = Poly(ctx, ctx.fresh("stacked"), shape=prepend(arrays.n, s0), region=Region("fresh", "concatenate"))
+        r.owndata = z3.BoolVal(True)
+        ctx.assume(r.wf(ctx))
+        from contracts.construct import keyok
+        ctx.assume(ctx.forall_range(0, r.N, lambda t: keyok(r.row(t), r.D)))
+        part = ctx.func("part", I, Idx, PV)
+        j = z3.Const(ctx.fresh("j"), Idx)
+        ctx.assume(z3.ForAll([j], z3.Implies(inshape(j, r.shape), r.val(j) == part(first0(j), rest0(j))), patterns=[r.val(j)]))
+
+        def link(d0):
+            """facts about piece d0 (an arbitrary but fixed position): part(d0, .) is the value of the array that was wrapped"""
+            pc = arrays.item(d0)
+            src = pc.item_of[0]
+            ctx.assume(ctx.forall_idx(lambda i: part(d0, i) == src.val(i), s0))
+            return src
+        r.pieces = dict(seq=arrays, part=part, shape=s0, link=link, n=arrays.n)
+        return r
 
 
 CONTRACTS = [
